@@ -31,6 +31,7 @@ structure OpM where
   defaultsOn : Bool := false     -- default injection enabled (ValidateRequest without SkipSettingDefaults; VisitJSON with DefaultsSet)
   sharedDefault : Bool := false  -- the schema has an object-valued default that itself receives nested defaults
   genType : Nat := 0
+  recursive : Bool := false      -- the Go type handed to the generator refers to itself
   deriving DecidableEq, Repr
 
 def docCell : Cell := 0
@@ -51,13 +52,21 @@ def validates : OpKind → Bool
 /-- exclusion predicate of finding F-C15-1 on one operation -/
 def opExcl (o : OpM) : Bool := validates o.kind && o.defaultsOn && o.sharedDefault
 
-def opActs (o : OpM) : List Act :=
+/-- exclusion predicate of finding F-C15-2 on one operation: `getTypeInfo` publishes its own descriptor
+    unconditionally and cycle detection compares descriptor POINTERS, so a generation that looks the
+    recursive type up again may get another goroutine's descriptor -/
+def opExclT (o : OpM) : Bool := o.kind = .gen && o.recursive
+
+/-- footprint of operation `o` when run by thread `tid` -/
+def opActs (tid : Nat) (o : OpM) : List Act :=
   [Act.read docCell] ++
   (if usesRouter o.kind then [Act.read routerCell] else []) ++
   (if validates o.kind then o.patterns.map (fun p => Act.cacheFill (patCell p) (p + 1)) else []) ++
   (if validates o.kind && o.arrays then [Act.lazyInit uniqCell 7] else []) ++
-  (if o.kind = .gen then [Act.cacheFill (typeCell o.genType) (o.genType + 1)] else []) ++
-  (if opExcl o then [Act.lazyInit dfltCell 5] else [])
+  (if o.kind = .gen && !o.recursive then [Act.cacheFill (typeCell o.genType) (o.genType + 1)] else []) ++
+  (if validates o.kind && o.sharedDefault && !opExcl o then [Act.read dfltCell] else []) ++  -- error texts print the schema
+  (if opExcl o then [Act.lazyInit dfltCell 5] else []) ++
+  (if opExclT o then [Act.syncStore (typeCell o.genType) (1000 + tid), Act.syncRead (typeCell o.genType)] else [])
 
 structure CaseM where
   ops : List OpM
@@ -67,7 +76,12 @@ structure CaseM where
   deriving Repr
 
 /-- `SharedObjectDefault`: the exclusion predicate of finding F-C15-1 on a case -/
-def Excl (c : CaseM) : Bool := c.ops.any opExcl
+def ExclSharedDefault (c : CaseM) : Bool := c.ops.any opExcl
+
+/-- `TypeInfoIdentity`: the exclusion predicate of finding F-C15-2 on a case -/
+def ExclTypeInfo (c : CaseM) : Bool := c.ops.any opExclT
+
+def Excl (c : CaseM) : Bool := ExclSharedDefault c || ExclTypeInfo c
 
 def caseCfg (c : CaseM) : Cfg :=
   { cache := (c.ops.flatMap (fun o => o.patterns.map patCell)) ++ c.ops.map (fun o => typeCell o.genType),
@@ -77,11 +91,11 @@ def caseCfg (c : CaseM) : Cfg :=
     caches cold, the shared default object without the nested key -/
 def sigma0 : State := fun c => if c = docCell then 1 else if c = routerCell then 1 else if c = uniqCell then 7 else 0
 
-def getOp (ops : List OpM) (i : Nat) : List Act :=
-  match ops[i % ops.length]? with | some o => opActs o | none => []
+def getOp (tid : Nat) (ops : List OpM) (i : Nat) : List Act :=
+  match ops[i % ops.length]? with | some o => opActs tid o | none => []
 
 def threadActs (c : CaseM) (j : Nat) : List Act :=
-  (List.range c.per).flatMap (fun r => getOp c.ops (j + r))
+  (List.range c.per).flatMap (fun r => getOp j c.ops (j + r))
 
 def nextSeed (s : Nat) : Nat := (s * 1103515245 + 12345) % 2147483648
 
@@ -124,6 +138,13 @@ def outcomeOf (n : Nat) (tr : Trace) : Outcome :=
 
 /-- the model's outcome of a correspondence case -/
 def outcome (c : CaseM) : Outcome := outcomeOf c.g (caseTrace c)
+
+/-- inside the exclusion classes: what the recorded defects can make an execution show (upper bound; which of
+    it shows depends on the schedule) -/
+def mayOutcome (c : CaseM) : Outcome :=
+  { race := ExclSharedDefault c && decide (2 ≤ c.g),
+    diverge := Excl c && decide (2 ≤ c.g),
+    docChanged := ExclSharedDefault c }
 
 /-- the specification: no data race, every verdict as when run alone, the document untouched -/
 def specOutcome : Outcome := ⟨false, false, false⟩
